@@ -30,6 +30,7 @@ func main() {
 		{"shipped", genShipped},
 		{"sanfacts", genSanFacts},
 		{"builderfacts", genBuilderFacts},
+		{"srcpins", genSrcPins},
 	}
 	for _, g := range gens {
 		if *only == "" || *only == g.name {
